@@ -292,6 +292,20 @@ func (x *Executor) execPhi(fr *Frame, phi *ssa.Phi, b *ssa.BasicBlock, ins []inc
 
 // execLoop handles a natural loop: invariant on entry, havoc of the write set, invariant
 // assumed, body executed once, invariant re-established on back edges.
+// mapRangeOf: the range-over-map iterator advanced in the loop header, if any.
+func mapRangeOf(li *loopInfo) *ssa.Range {
+	for _, in := range li.header.Instrs {
+		if nx, ok := in.(*ssa.Next); ok && !nx.IsString {
+			if rng, ok := nx.Iter.(*ssa.Range); ok {
+				if _, isMap := rng.X.Type().Underlying().(*types.Map); isMap {
+					return rng
+				}
+			}
+		}
+	}
+	return nil
+}
+
 func (x *Executor) execLoop(fr *Frame, li *loopInfo, ins []incoming) map[*ssa.BasicBlock][]incoming {
 	u := x.u
 	stE := x.mergeStates(ins)
@@ -385,6 +399,12 @@ func (x *Executor) execLoop(fr *Frame, li *loopInfo, ins []incoming) map[*ssa.Ba
 	// 3. havoc write set
 	stH := stE.clone()
 	stH.ghost = map[string]string{}
+	// a range-over-map loop: the set of keys visited so far is arbitrary at the cut (invariants
+	// constrain it through the name `visited`)
+	if rng := mapRangeOf(li); rng != nil {
+		mt := rng.X.Type().Underlying().(*types.Map)
+		stH.ghost[fmt.Sprintf("visited$%d$%s", fr.id, rng.Name())] = u.freshConst("visited", fmt.Sprintf("(Array %s Bool)", u.sortOf(mt.Key())))
+	}
 	for r := range ws.unprot {
 		delete(stH.fresh, r)
 		x.escape(stH, Val{Taint: []string{r}})
